@@ -1,6 +1,7 @@
 package msg
 
 import (
+	"fmt"
 	"google.golang.org/protobuf/proto"
 	"google.golang.org/protobuf/reflect/protodesc"
 	"google.golang.org/protobuf/reflect/protoreflect"
@@ -9,6 +10,7 @@ import (
 	"google.golang.org/protobuf/types/dynamicpb"
 
 	testpb "google.golang.org/protobuf/internal/testprotos/test"
+	testeditionspb "google.golang.org/protobuf/internal/testprotos/testeditions"
 )
 
 // The corpus has no message-typed extension whose payload is rich (maps, oneofs, lists below an extension).  The
@@ -44,6 +46,56 @@ func init() {
 	if err := protoregistry.GlobalTypes.RegisterExtension(xt); err != nil {
 		panic("harness: " + err.Error())
 	}
+	registerEditionsStringExt()
 }
 
-var _ protoreflect.ExtensionType
+// The repository's editions test file for extensions sets features.utf8_validation = NONE for the whole file, so the
+// corpus has no string extension that must be validated.  The harness adds an edition 2023 file without feature
+// overrides (utf8_validation defaults to VERIFY):
+//
+//	extend goproto.proto.testeditions.TestAllExtensions { string verif_str = 20006; repeated string verif_strs = 20007; }
+const (
+	EdStrExtNumber  = 20006
+	EdStrsExtNumber = 20007
+)
+
+func registerEditionsStringExt() {
+	_ = (&testeditionspb.TestAllExtensions{}).ProtoReflect() // make sure the open flavour is linked
+	for i, prefix := range []string{"", "hybrid.", "opaque."} {
+		extendee := prefix + "goproto.proto.testeditions.TestAllExtensions"
+		d, err := protoregistry.GlobalFiles.FindDescriptorByName(protoreflect.FullName(extendee))
+		if err != nil {
+			continue // flavour not linked into this binary
+		}
+		ext := func(name string, num int32, label descriptorpb.FieldDescriptorProto_Label) *descriptorpb.FieldDescriptorProto {
+			return &descriptorpb.FieldDescriptorProto{
+				Name: proto.String(name), Number: proto.Int32(num), Label: label.Enum(),
+				Type:     descriptorpb.FieldDescriptorProto_TYPE_STRING.Enum(),
+				Extendee: proto.String("." + extendee),
+			}
+		}
+		fdp := &descriptorpb.FileDescriptorProto{
+			Name:       proto.String(fmt.Sprintf("verif/editions_string_ext_%d.proto", i)),
+			Package:    proto.String(fmt.Sprintf("verif.edstrext%d", i)),
+			Syntax:     proto.String("editions"),
+			Edition:    descriptorpb.Edition_EDITION_2023.Enum(),
+			Dependency: []string{d.ParentFile().Path()},
+			Extension: []*descriptorpb.FieldDescriptorProto{
+				ext("verif_str", EdStrExtNumber, descriptorpb.FieldDescriptorProto_LABEL_OPTIONAL),
+				ext("verif_strs", EdStrsExtNumber, descriptorpb.FieldDescriptorProto_LABEL_REPEATED),
+			},
+		}
+		fd, err := protodesc.NewFile(fdp, protoregistry.GlobalFiles)
+		if err != nil {
+			panic("harness: cannot build the editions string extensions: " + err.Error())
+		}
+		if err := protoregistry.GlobalFiles.RegisterFile(fd); err != nil {
+			panic("harness: " + err.Error())
+		}
+		for j := 0; j < fd.Extensions().Len(); j++ {
+			if err := protoregistry.GlobalTypes.RegisterExtension(dynamicpb.NewExtensionType(fd.Extensions().Get(j))); err != nil {
+				panic("harness: " + err.Error())
+			}
+		}
+	}
+}
